@@ -119,6 +119,22 @@ func FamilyName(thorough bool) []*Conv {
 			Decls: "type PFXBox[T any] struct {\n\tV T\n\tL []T\n}\ntype PFXIn struct{ A int }\ntype PFXOut struct{ A int }\n", Spec: &Spec{},
 		})
 	}
+	// empty named structs (no field to copy): still two different types
+	for _, f := range []string{"struct", "function", "variable"} {
+		out = append(out, &Conv{
+			ID: "name/empty_named_structs/" + f, Family: "name", Format: f,
+			Params: "source PFXIn", Results: "PFXOut",
+			Decls: "type PFXVa struct{}\ntype PFXVb struct{}\ntype PFXIn struct {\n\tSet map[string]PFXVa\n\tOne PFXVa\n\tL []PFXVa\n\tU map[string]struct{}\n}\ntype PFXOut struct {\n\tSet map[string]PFXVb\n\tOne PFXVb\n\tL []PFXVb\n\tU map[string]struct{}\n}\n",
+			Spec: &Spec{},
+		})
+	}
+	// a variables block and a function-format interface sharing one output file and needing the same helper
+	out = append(out, &Conv{
+		ID: "name/shared_file_across_formats/variable", Family: "name", Format: "variable", Solo: true,
+		Params: "source PFXOuterA", Results: "PFXOuterAT",
+		Decls: "type PFXIn struct{ V int }\ntype PFXInT struct{ V int }\ntype PFXOuterA struct{ I PFXIn }\ntype PFXOuterAT struct{ I PFXInT }\ntype PFXOuterB struct{ I PFXIn }\ntype PFXOuterBT struct{ I PFXInT }\n\n// goverter:converter\n// goverter:output:format function\n// goverter:output:file ./input.gen.go\n// goverter:output:package corpus/GRP\ntype PFXShared interface {\n\tPFXConvB(source PFXOuterB) PFXOuterBT\n}\n",
+		Spec: &Spec{},
+	})
 	// custom struct name / several converters in one file are exercised by every group of the other families
 	out = append(out, &Conv{
 		ID: "name/custom_struct_name/struct", Family: "name", Format: "struct",
